@@ -224,6 +224,41 @@ func runSeqGenerated(bin, prop string, seed uint64) (rep *RunReport) {
 			r.ExecStep(st)
 		}
 	}
+	if prop == "C17" && rng.Chance(1, 30) {
+		// the size limit of one event line from below: an item created without
+		// a body gets one that just fits its own event; compaction then folds
+		// it into the creation event, which is a little longer
+		base := len(r.M.Order)
+		ref := fmt.Sprintf("#%d", base)
+		n := 10*1024*1024 - 600 + rng.Intn(560)
+		for _, st := range []Step{
+			{Cmd: &Cmd{Op: "new_task", Mode: "json", Title: sp("near the limit " + g.text("title"))}},
+			{Cmd: &Cmd{Op: "set", Mode: g.oneOf("json", "bodystdin"), ID: ref, Body: sp("oversized " + strings.Repeat("x", n))}},
+			{Cmd: &Cmd{Op: "show", ID: ref}}, {Cmd: &Cmd{Op: "compact"}}, {Cmd: &Cmd{Op: "show", ID: ref}}, {Cmd: &Cmd{Op: "list", LAll: true}},
+		} {
+			sc.Steps = append(sc.Steps, st)
+			r.ExecStep(st)
+		}
+	}
+	if (prop == "C10" || prop == "C07") && rng.Chance(1, 10) {
+		// wide inputs: a plan of 40 tasks, then chains over all of them - one
+		// valid, one that fails at its very end. Limits and batching inside
+		// ergo (edges per append, bytes per write) must not show.
+		doc := &PlanDoc{Title: sp("wide " + g.text("title"))}
+		for i := 0; i < 40; i++ {
+			doc.Tasks = append(doc.Tasks, PlanTask{Title: sp(fmt.Sprintf("w%02d %s", i, g.text("title")))})
+		}
+		base := len(r.M.Order)
+		var ids []string
+		for i := 0; i < 40; i++ {
+			ids = append(ids, fmt.Sprintf("#%d", base+1+i))
+		}
+		bad := append(append([]string{}, ids...), g.oneOf("ZZZZZZ", ids[0], "#999"))
+		for _, st := range []Step{{Cmd: &Cmd{Op: "plan", Plan: doc}}, {Cmd: &Cmd{Op: "sequence", IDs: bad}}, {Cmd: &Cmd{Op: "sequence", IDs: ids}}, {Cmd: &Cmd{Op: "sequence", IDs: append([]string{ids[39]}, ids[:5]...)}}} {
+			sc.Steps = append(sc.Steps, st)
+			r.ExecStep(st)
+		}
+	}
 	mergedCycle := false
 	tornPlan := prop == "C11" && rng.Chance(1, 4)
 	tornDry := prop == "C09" && rng.Chance(1, 3)
@@ -244,6 +279,14 @@ func runSeqGenerated(bin, prop string, seed uint64) (rep *RunReport) {
 			// nothing" includes not tidying that up
 			tornDry = false
 			ds := Step{Disk: &DiskOp{Kind: "tail_fragment", Arg: `{"type":"state","ts":"2030-01-01T00:00:00Z","data":{"id":"QQQQQQ","sta`}}
+			sc.Steps = append(sc.Steps, ds)
+			r.ExecStep(ds)
+		}
+		if prop == "C10" && st.IO != nil && st.IO.Call == "write" && i > 0 && rng.Chance(1, 3) {
+			// the failing write meets a log whose tail was torn by an earlier
+			// crash: the repair of the tail and the roll-back of the failed
+			// append must not get in each other's way
+			ds := Step{Disk: &DiskOp{Kind: "tail_fragment", Arg: `{"type":"title","ts":"2030-01-01T00:00:00Z","data":{"id":"QQQQQQ","title":"a title that was being written when the process died, long enough to matter`}}
 			sc.Steps = append(sc.Steps, ds)
 			r.ExecStep(ds)
 		}
